@@ -14,6 +14,14 @@ CLAIMS = {
         "the chained-Repeat defect, fixed in /repo).",
    note="Trusted: pyvc encoding, z3, asyncio.Queue/wait_for interface contracts (FIFO, timeout), set_output (C02), time_period (C19). "
         "Unclaimed: the pace in seconds, Event(..., repeat=) construction, nothing re-sent after stop (C08)."),
+ 'C19': dict(
+   text="time_period, convert, _convert (numeric fold over what the regex layer delivers: one inductive step per group index with "
+        "spec functions for partial sum / some-smaller-unit-present / prefix-ok), timestr (integer instance: the exact rendered text and "
+        "the d/h/m/s decomposition; float instance: shown value within half a unit of the last place) and timestr_approx (int and float "
+        "instances: error <= half the documented rounding step of the band reached after cascading rounding; omitted units are zero) "
+        "are executed from the real AST; lemmas: fold unfolded = 86400d+3600h+60m+s arithmetic, integer round trip.",
+   note="Trusted: pyvc encoding, z3 (linear int/real + strings); floats as reals, round() as 'nearest multiple of 10^-p' spec function, "
+        "float(numeral) uninterpreted. Bounded (labelled): the two regexes and the text round trip on a 76k-case grid."),
  'C20': dict(
    text="Each Counter handler (_setmod, _event_inc/dec/put/reset, __init__) is symbolically executed from /repo's current AST against a "
         "postcondition taken from the property statement (result = Python arithmetic reduced by floor-modulo, output in [0,M), type "
